@@ -5,6 +5,7 @@ package main
 import (
 	"bufio"
 	"fmt"
+	"strconv"
 	"strings"
 
 	"github.com/postalsys/muti-metroo/internal/socks5"
@@ -45,12 +46,16 @@ func c23ParseAuths(s string) []socks5.Authenticator {
 
 func c23Run(line string) string {
 	f := fields(line)
-	if len(f) != 5 || f[0] != "h" {
+	if (len(f) != 5 && len(f) != 6) || f[0] != "h" {
 		return "bad-op"
+	}
+	frag := 0
+	if len(f) == 6 {
+		frag, _ = strconv.Atoi(f[5][1:])
 	}
 	w := &c23World{dial: f[2], udp: f[3][0], icmp: f[3][1]}
 	h := socks5.NewHandler(c23ParseAuths(f[1]), w)
-	return c23Drive(h, w, unhexTok(f[4]))
+	return c23Drive(h, w, unhexTok(f[4]), frag)
 }
 
 // ---- generator
@@ -109,7 +114,17 @@ func c23Gen(w *bufio.Writer, seed int64, tier string) {
 		"ok.20010db8000000000000000000000001.1", "f.dns", "f.timeout", "f.dialop", "f.other"}
 	backends := []string{"xx", "xx", "oo", "kf", "ff", "kx", "xf", "of"}
 	greetings := [][]byte{{5, 1, 0}, {5, 2, 2, 0}, {5, 3, 1, 2, 0}, {5, 1, 2}, {5, 0}, {5, 2, 0, 0}}
+	big := append([]byte{5, 255}, r.bytes(255)...) // 255 methods, "no auth" somewhere inside
+	big[2+r.intn(255)] = 0
+	big2 := append([]byte{5, 255}, make([]byte, 255)...)
+	for i := range big2[2:] {
+		big2[2+i] = byte(1 + r.intn(255)) // 255 methods, none acceptable
+	}
 	emit := func(auths, dial, be string, in []byte) {
+		if r.chance(25) { // the same bytes arriving 1..3 at a time
+			fmt.Fprintf(w, "h %s %s %s %s f%d\n", auths, dial, be, hexTok(in), 1+r.intn(3))
+			return
+		}
 		fmt.Fprintf(w, "h %s %s %s %s\n", auths, dial, be, hexTok(in))
 	}
 	ports := []uint16{0, 1, 80, 443, 8080, 65535, 256, 255}
@@ -122,6 +137,11 @@ func c23Gen(w *bufio.Writer, seed int64, tier string) {
 				continue
 			}
 			g := greetings[r.intn(3)]
+			if r.chance(8) {
+				g = big
+			} else if r.chance(3) {
+				g = big2
+			}
 			rsv := byte(0)
 			if r.chance(20) {
 				rsv = byte(r.intn(256))
@@ -170,6 +190,18 @@ func c23Gen(w *bufio.Writer, seed int64, tier string) {
 		{1, 0, 0},
 		{2, 5, 'a', 'l', 'i', 'c', 'e', 4, 'p', 'a', 's', 's'},
 		{1, 5, 'a', 'l', 'i', 'c', 'e', 0},
+	}
+	longU, longP := r.bytes(255), r.bytes(255)
+	longCreds := "S" + hexTok(longU) + "." + hexTok(longP)
+	longMsg := append(append(append([]byte{1, 255}, longU...), 255), longP...)
+	longBad := append([]byte{}, longMsg...)
+	longBad[len(longBad)-1] ^= 1
+	for _, lm := range [][]byte{longMsg, longBad} {
+		msg := append(append([]byte{5, 1, 2}, lm...), c23Request(1, 0, dests[0], 65535)...)
+		emit(longCreds, "ok.7f000001.8080", "xx", msg)
+		for k := 0; k < 8; k++ {
+			emit(longCreds, "ok.7f000001.8080", "xx", msg[:r.intn(len(msg))])
+		}
 	}
 	for _, up := range upMsgs {
 		for _, au := range []string{creds, creds + ",N", "N," + creds, "S"} {
